@@ -95,3 +95,12 @@ Theorem c18_cookie_flags_pinned :
      s "cookie-csrf-expire Duration time.Duration(15)*time.Minute"].
 Proof. vm_compute. reflexivity. Qed.
 Print Assumptions c18_cookie_flags_pinned.
+
+(* Every option field bound to a command-line flag (158 on this tree) names, in its tag, a flag that is registered, and
+   its configuration key is that flag's name with "_" for "-" (or its plural): REGENERATED from pkg/apis/options on this
+   run.  The loader binds key, environment variable and flag through these tags, so a field tagged with a neighbour's
+   flag would silently take that neighbour's command-line value (cookie-httponly following cookie-secure). *)
+Theorem c18_option_tags_regular :
+  Wiring.option_tags_irregular = [] /\ Wiring.option_flags_unregistered = [] /\ Wiring.option_flags_untagged = [].
+Proof. repeat split; vm_compute; reflexivity. Qed.
+Print Assumptions c18_option_tags_regular.
